@@ -15,6 +15,19 @@ pub struct IndCheck {
 	pub id: &'static str,
 }
 
+/// value slots documented as ratios on [0,1] or [-1,1]
+fn unit_interval(name: &str, slot: usize) -> bool {
+	match name {
+		"Aroon" | "StochasticOscillator" => slot < 2,
+		"RelativeStrengthIndex" | "ChandeMomentumOscillator" | "ChaikinMoneyFlow" | "TrendStrengthIndex" => slot == 0,
+		"MoneyFlowIndex" => slot == 1,
+		"TrueStrengthIndex" => slot < 2,
+		"SMIErgodicIndicator" => slot < 3,
+		"AverageDirectionalIndex" => slot < 3,
+		_ => false,
+	}
+}
+
 pub fn modelled() -> Vec<&'static str> {
 	let c0 = refm::tc_exact(&[100.0, 101.0, 99.0, 100.5, 1000.0]);
 	ieng::indicators()
@@ -94,7 +107,10 @@ impl Check for IndCheck {
 						continue;
 					}
 					stats.checked += 1;
-					if !want.complies(y) {
+					// quantities documented on a unit interval ([0,1] or [-1,1]): the rounding allowance has an absolute
+					// floor of a few ulp of 1 (e.g. 1 - N/(P+N) is as good an evaluation as P/(P+N))
+					let unit_floor = if unit_interval(name, i) { 16.0 * crate::tracked::U } else { 0.0 };
+					if !want.complies(y) && !((y - want.v).abs() <= want.e + unit_floor) {
 						if let (false, Some(l)) = (use_layout, layout.as_ref()) {
 							if (0..rv.len()).all(|j| rv[l.0[j]].und() || rv[l.0[j]].complies(o.f(2 + j))) {
 								use_layout = true;
